@@ -24,6 +24,9 @@ Proof.
   revert i. induction l1 as [|x l1 IH]; intros [|i] Hi; cbn in *; try lia; auto. rewrite IH by lia. reflexivity.
 Qed.
 
+Lemma set_nth_mid {A} (l1 l2 : list A) x a : set_nth (length l1) a (l1 ++ x :: l2) = l1 ++ a :: l2.
+Proof. induction l1 as [|y l1 IH]; cbn; auto. rewrite IH. reflexivity. Qed.
+
 Lemma nth_app_mid {A} (l1 l2 : list A) x d : nth (length l1) (l1 ++ x :: l2) d = x.
 Proof. induction l1; cbn; auto. Qed.
 
@@ -95,3 +98,349 @@ Proof.
         -- left. exists k2. auto.
         -- right. exists (w :: pre), x, y, ra, rb. auto.
 Qed.
+
+Section Ins.
+Variable H : bytes -> bytes.
+Hypothesis Hlen : forall x, length (H x) = 32.
+Variable d : db.
+
+Definition hashed_rel (c : stn) (n : node) : Prop :=
+  (c = StNil /\ n = Empty) \/ (is_node' n /\ c = StHashed (sval H n)).
+
+(** the stack trie's state along the rightmost path of the trie *)
+Inductive srel : stn -> node -> Prop :=
+| SLeaf k v f : srel (StLeaf k v) (Short (k ++ [16]) (Value v) f)
+| SExt k c cs g f : srel c (Full cs g) -> srel (StExt k c) (Short k (Full cs g) f)
+| SBranch hp live nh nlive f :
+    Forall2 hashed_rel hp nh -> srel live nlive -> length hp < 16 ->
+    srel (StBranch (hp ++ live :: repeat StNil (15 - length hp)))
+         (Full (nh ++ nlive :: repeat Empty (15 - length hp) ++ [Empty]) f).
+
+Lemma srel_node s n : srel s n -> is_node' n.
+Proof. destruct 1; exact I. Qed.
+
+Lemma srel_live s n : srel s n ->
+  match s with StLeaf _ _ | StExt _ _ | StBranch _ => True | _ => False end.
+Proof. destruct 1; exact I. Qed.
+
+Lemma all_rel_nils m : all_rel H (repeat StNil m) (repeat Empty m).
+Proof. induction m; cbn; auto. Qed.
+
+Lemma all_rel_app hp nh t1 t2 : Forall2 hashed_rel hp nh -> all_rel H t1 t2 -> all_rel H (hp ++ t1) (nh ++ t2).
+Proof.
+  induction 1 as [|c x hp nh Hcx Hf IH]; intros Ht; cbn [app all_rel]; auto.
+  split; auto. destruct Hcx as [[-> ->]|[Hn ->]]; [reflexivity|]. cbn. auto.
+Qed.
+
+Lemma srel_strel s n : srel s n -> strel H s n.
+Proof.
+  induction 1 as [k v f|k c cs g f Hc IH|hp live nh nlive f Hf Hl IH Hlen'].
+  - cbn. eauto.
+  - cbn [strel]. exists (Full cs g), f. repeat split; auto.
+  - apply strel_branch. exists (nh ++ nlive :: repeat Empty (15 - length hp)), f. split.
+    + rewrite <- app_assoc. reflexivity.
+    + apply all_rel_app; auto. cbn [all_rel]. split; [|apply all_rel_nils].
+      pose proof (srel_live _ _ Hl) as Hlive. pose proof (srel_node _ _ Hl) as Hn.
+      destruct live; try tauto; auto.
+Qed.
+
+Lemma st_hash_srel s n : srel s n -> st_hash H s = sval H n.
+Proof. intros Hs. apply (st_hash_rel H Hlen); [apply srel_strel; auto|eapply srel_node; eauto]. Qed.
+
+Lemma repeat_snoc {A} (x : A) m : repeat x (S m) = repeat x m ++ [x].
+Proof. induction m; cbn in *; auto. f_equal. auto. Qed.
+
+(** a freshly split node: the old part (hashed) at [x], the new leaf at [y] *)
+Lemma split_srel pre x y old Y liveS X :
+  x < y -> y < 16 -> is_node' Y -> old = StHashed (sval H Y) -> srel liveS X ->
+  srel (if Nat.eqb (length pre) 0
+        then StBranch (set_nth y liveS (set_nth x old st_nil_children))
+        else StExt pre (StBranch (set_nth y liveS (set_nth x old st_nil_children))))
+       (opt_short pre (branch2 x y Y X)).
+Proof.
+  intros Hxy Hy HY -> HX.
+  assert (Hb : srel (StBranch (set_nth y liveS (set_nth x (StHashed (sval H Y)) st_nil_children)))
+                    (branch2 x y Y X)).
+  { unfold branch2, st_nil_children, empty_children.
+    rewrite (two_in_row StNil (StHashed (sval H Y)) liveS 16 x y) by lia.
+    rewrite (two_in_row Empty Y X 17 x y) by lia.
+    replace (17 - y - 1) with (S (15 - y)) by lia. rewrite repeat_snoc.
+    set (hp := repeat StNil x ++ StHashed (sval H Y) :: repeat StNil (y - x - 1)).
+    assert (Ehp : length hp = y) by (unfold hp; rewrite app_length; cbn; rewrite !repeat_length; lia).
+    replace (16 - y - 1) with (15 - length hp) by lia. replace (15 - y) with (15 - length hp) by lia.
+    apply SBranch; auto; [|lia].
+    unfold hp. apply Forall2_app; [|constructor].
+    - clear. induction x; cbn; constructor; auto. left; auto.
+    - right. auto.
+    - clear. induction (y - x - 1); cbn; constructor; auto. left; auto. }
+  unfold opt_short, branch2 in *. destruct (Nat.eqb (length pre) 0); auto. constructor. exact Hb.
+Qed.
+
+Lemma forall2_length {A B} (R : A -> B -> Prop) l l' : Forall2 R l l' -> length l = length l'.
+Proof. induction 1; cbn; auto. Qed.
+
+Definition ord (n : node) (k : key) : Prop := forall k' w, has n k' w -> lt_pf k' (k ++ [16]).
+
+Lemma lt_pf_term_l k2 : nibs k2 -> ~ lt_pf [16] (k2 ++ [16]).
+Proof.
+  intros Hk Hl. destruct k2 as [|w k2]; cbn [app] in Hl; apply lt_pf_cons_inv in Hl as [[X Y]|[E Hl]]; try lia.
+  - eapply lt_pf_nil_l; eauto.
+  - inversion Hk; subst. lia.
+Qed.
+
+Lemma hash_prev_hp hp rest : Forall (fun c => c = StNil \/ exists v, c = StHashed v) hp ->
+  forall i, i <= length hp -> hash_prev H (hp ++ rest) i = hp ++ rest.
+Proof.
+  intros Hf. induction i as [|i IH]; intros Hi; cbn [hash_prev]; auto.
+  assert (Hn : nth i (hp ++ rest) StNil = nth i hp StNil) by (apply app_nth1; lia).
+  rewrite Hn. rewrite Forall_forall in Hf.
+  destruct (Hf (nth i hp StNil)) as [E|(v & E)]; [apply nth_In; lia| |]; rewrite E; auto. apply IH. lia.
+Qed.
+
+Lemma hash_prev_live hp live m :
+  match live with StLeaf _ _ | StExt _ _ | StBranch _ => True | _ => False end ->
+  forall i, length hp < i -> i <= length hp + m + 1 ->
+  hash_prev H (hp ++ live :: repeat StNil m) i = hp ++ StHashed (st_hash H live) :: repeat StNil m.
+Proof.
+  intros Hlive. induction i as [|i IH]; intros H1 H2; [lia|]. cbn [hash_prev].
+  destruct (Nat.eq_dec i (length hp)) as [->|Hne].
+  - rewrite nth_app_mid. destruct live; try tauto; apply set_nth_mid.
+  - assert (Hn : nth i (hp ++ live :: repeat StNil m) StNil = StNil).
+    { rewrite app_nth2 by lia. destruct (i - length hp) as [|q] eqn:E; [lia|]. cbn [nth]. apply nth_repeat_d. }
+    rewrite Hn. apply IH; lia.
+Qed.
+
+Lemma hashed_forall hp nh : Forall2 hashed_rel hp nh ->
+  Forall (fun c => c = StNil \/ exists v, c = StHashed v) hp.
+Proof. induction 1 as [|c x hp nh Hcx Hf IH]; constructor; auto. destruct Hcx as [[-> _]|[_ ->]]; eauto. Qed.
+
+Lemma leafn_value rest v : leafn (rest ++ [16]) (Value v) = Short (rest ++ [16]) (Value v) newflag.
+Proof. unfold leafn. destruct (rest ++ [16]) eqn:E; [destruct rest; discriminate|reflexivity]. Qed.
+
+Lemma st_insert_srel (v : bytes) : v <> [] ->
+  forall fuel s n k, srel s n -> canon n -> nibs k -> ord n k -> length k < fuel ->
+  exists s' n', st_insert H fuel s k v = Some s' /\
+    (forall fT, length (k ++ [16]) < fT -> insert fT d n (k ++ [16]) (Value v) = Ok (true, n')) /\
+    srel s' n'.
+Proof.
+  intros Hv. induction fuel as [|f IH]; intros s n k Hs Hc Hk Ho Hf; [lia|].
+  destruct Hs as [sk sv fl|sk c cs g fl Hsc|hp live nh nlive fl Hhp Hlive Hlen'].
+  - (* leaf *)
+    assert (Hnsk : nibs sk).
+    { inversion Hc as [|p ? ? Hp _ E| |]; subst. apply app_inj_tail in E as [-> _]. auto. }
+    assert (Hl : lt_pf (sk ++ [16]) (k ++ [16])).
+    { rewrite <- (app_nil_r (sk ++ [16])). apply (Ho ((sk ++ [16]) ++ []) sv). constructor. constructor. }
+    destruct (lt_pf_compare sk [16] k Hnsk Hk Hl) as [(k2 & -> & Hl2)|(pre & x & y & ra & rb & -> & -> & Hxy)].
+    { exfalso. apply (lt_pf_term_l k2); auto. apply nibs_app in Hk. tauto. }
+    assert (Hy : y < 16). { apply nibs_app in Hk as [_ Hk2]. inversion Hk2; auto. }
+    cbn [st_insert]. rewrite (diff_index_diverge pre x y ra rb) by lia.
+    assert (Hleb : Nat.leb (length (pre ++ x :: ra)) (length pre) = false).
+    { apply Nat.leb_gt. rewrite app_length. cbn. lia. }
+    rewrite Hleb, !nth_error_app_mid, !skipn_app_mid, firstn_app_len.
+    assert (Hold : StHashed (st_hash H (StLeaf ra sv)) =
+                   StHashed (sval H (Short (ra ++ [16]) (Value sv) newflag))).
+    { rewrite (st_hash_srel (StLeaf ra sv) (Short (ra ++ [16]) (Value sv) newflag) (SLeaf ra sv newflag)). reflexivity. }
+    pose proof (split_srel pre x y _ (Short (ra ++ [16]) (Value sv) newflag) (StLeaf rb v)
+                  (Short (rb ++ [16]) (Value v) newflag) Hxy Hy I Hold (SLeaf rb v newflag)) as Hsp.
+    assert (Hins : forall fT, length ((pre ++ y :: rb) ++ [16]) < fT ->
+              insert fT d (Short ((pre ++ x :: ra) ++ [16]) (Value sv) fl) ((pre ++ y :: rb) ++ [16]) (Value v) =
+              Ok (true, opt_short pre (branch2 x y (Short (ra ++ [16]) (Value sv) newflag)
+                                                   (Short (rb ++ [16]) (Value v) newflag)))).
+    { intros fT HfT. destruct fT as [|fT]; [lia|].
+      rewrite <- !app_assoc. cbn [app]. rewrite insert_short_diverge by lia. rewrite !leafn_value. reflexivity. }
+    destruct (Nat.eqb (length pre) 0); eexists _, _; (split; [reflexivity|]); split; eauto.
+  - (* extension *)
+    inversion Hc as [| |? ? ? ? Hne Hnsk Hcf|]; subst.
+    destruct (canon_has_key _ Hcf) as (r0 & w0 & Hh0); [discriminate|].
+    assert (Hl : lt_pf (sk ++ r0) (k ++ [16])) by (apply (Ho _ w0); constructor; auto).
+    destruct (lt_pf_compare sk r0 k Hnsk Hk Hl) as [(k2 & -> & Hl2)|(pre & x & y & ra & rb & -> & -> & Hxy)].
+    + (* descend *)
+      apply nibs_app in Hk as [_ Hk2].
+      destruct (IH c (Full cs g) k2 Hsc Hcf Hk2) as (s2 & n2 & E1 & E2 & Hr2).
+      { intros r w Hh. apply (lt_pf_app_inv sk). rewrite app_assoc. apply (Ho _ w). constructor; auto. }
+      { rewrite app_length in Hf. destruct sk; [congruence|cbn in Hf; lia]. }
+      cbn [st_insert]. rewrite diff_index_prefix, Nat.eqb_refl, skipn_app_len, E1.
+      (* the child stays a branch *)
+      destruct (insert_spec d v Hv (S (length (k2 ++ [16]))) (Full cs g) (k2 ++ [16]) Hcf
+                  (wfk_snoc _ Hk2) (Nat.lt_succ_diag_r _)) as (b & n3 & E3 & _ & _ & _ & Hfull & _).
+      rewrite (E2 _ (Nat.lt_succ_diag_r _)) in E3. inversion E3; subst b n3.
+      destruct (Hfull _ _ eq_refl) as (cs' & g' & ->).
+      eexists _, _. split; [reflexivity|]. split; [|constructor; exact Hr2].
+      intros fT HfT. destruct fT as [|fT]; [lia|]. rewrite <- app_assoc.
+      rewrite insert_short_match by auto. rewrite E2; [reflexivity|].
+      rewrite !app_length in HfT. rewrite app_length. destruct sk; [congruence|cbn in *; lia].
+    + (* split the extension *)
+      assert (Hy : y < 16). { apply nibs_app in Hk as [_ Hk2]. inversion Hk2; auto. }
+      cbn [st_insert]. rewrite (diff_index_diverge pre x y ra rb) by lia.
+      assert (Hneq : Nat.eqb (length pre) (length (pre ++ x :: ra)) = false).
+      { apply Nat.eqb_neq. rewrite app_length. cbn. lia. }
+      rewrite Hneq, !nth_error_app_mid, !skipn_app_mid, firstn_app_len.
+      assert (HY : is_node' (leafn ra (Full cs g))) by (destruct ra; exact I).
+      assert (Hold : (if Nat.ltb (length pre) (length (pre ++ x :: ra) - 1)
+                      then StHashed (st_hash H (StExt ra c)) else StHashed (st_hash H c)) =
+                     StHashed (sval H (leafn ra (Full cs g)))).
+      { assert (Hlt : Nat.ltb (length pre) (length (pre ++ x :: ra) - 1) = negb (Nat.eqb (length ra) 0)).
+        { rewrite app_length. cbn [length]. destruct ra; cbn [length Nat.eqb negb].
+          - apply Nat.ltb_ge. lia.
+          - apply Nat.ltb_lt. lia. }
+        rewrite Hlt. destruct ra as [|a ra]; cbn [length Nat.eqb negb leafn]; f_equal.
+        - apply st_hash_srel; auto.
+        - apply (st_hash_srel (StExt (a :: ra) c) (Short (a :: ra) (Full cs g) newflag)). constructor; auto. }
+      pose proof (split_srel pre x y _ (leafn ra (Full cs g)) (StLeaf rb v)
+                    (Short (rb ++ [16]) (Value v) newflag) Hxy Hy HY Hold (SLeaf rb v newflag)) as Hsp.
+      assert (Hins : forall fT, length ((pre ++ y :: rb) ++ [16]) < fT ->
+                insert fT d (Short (pre ++ x :: ra) (Full cs g) fl) ((pre ++ y :: rb) ++ [16]) (Value v) =
+                Ok (true, opt_short pre (branch2 x y (leafn ra (Full cs g))
+                                                     (Short (rb ++ [16]) (Value v) newflag)))).
+      { intros fT HfT. destruct fT as [|fT]; [lia|].
+        rewrite <- app_assoc. cbn [app]. rewrite insert_short_diverge by lia. rewrite leafn_value. reflexivity. }
+      destruct (Nat.eqb (length pre) 0); eexists _, _; (split; [reflexivity|]); split; eauto.
+  - (* branch *)
+    set (j := length hp) in *.
+    assert (Hnh : length nh = j) by (symmetry; eapply forall2_length; eauto).
+    set (ncs := nh ++ nlive :: repeat Empty (15 - j) ++ [Empty]) in *.
+    inversion Hc as [| | |? ? Hl17 Hch H16 Hcnt]; subst.
+    assert (Hnj : nth_error ncs j = Some nlive) by (unfold ncs; rewrite <- Hnh; apply nth_error_app_mid).
+    assert (Hcl : canon nlive) by (apply (Hch j); auto).
+    pose proof (srel_node _ _ Hlive) as Hnl.
+    destruct (canon_has_key _ Hcl) as (r0 & w0 & Hh0); [destruct nlive; cbn in Hnl; try tauto; discriminate|].
+    assert (Hl : lt_pf (j :: r0) (k ++ [16])) by (apply (Ho _ w0); econstructor; eauto).
+    destruct k as [|idx kt].
+    { exfalso. cbn in Hl. apply lt_pf_cons_inv in Hl as [[_ X]|[X _]]; lia. }
+    inversion Hk as [|? ? Hidx Hkt]; subst. cbn [app] in Hl.
+    cbn [st_insert]. destruct (Nat.leb_spec 16 idx) as [X|_]; [lia|].
+    apply lt_pf_cons_inv in Hl as [[Hji _]|[<- Hl2]].
+    + (* a new child to the right: the live child is hashed *)
+      rewrite (hash_prev_live hp live (15 - j) (srel_live _ _ Hlive) idx) by (fold j; lia).
+      set (q := idx - j - 1).
+      set (Hd := StHashed (st_hash H live)).
+      assert (Enth : nth idx (hp ++ Hd :: repeat StNil (15 - j)) StNil = StNil).
+      { rewrite app_nth2 by (fold j; lia). fold j. replace (idx - j) with (S q) by (unfold q; lia).
+        cbn [nth]. apply nth_repeat_d. }
+      rewrite Enth.
+      assert (Ecs : set_nth idx (StLeaf kt v) (hp ++ Hd :: repeat StNil (15 - j)) =
+                    (hp ++ Hd :: repeat StNil q) ++ StLeaf kt v :: repeat StNil (15 - idx)).
+      { replace idx with (length hp + S q) at 1 by (fold j; unfold q; lia).
+        rewrite set_nth_app_r. cbn [set_nth]. rewrite set_nth_repeat by (unfold q; lia).
+        rewrite <- app_assoc. cbn [app]. replace (15 - j - q - 1) with (15 - idx) by (unfold q; lia). reflexivity. }
+      set (X := Short (kt ++ [16]) (Value v) newflag).
+      assert (Encs : set_nth idx X ncs = (nh ++ nlive :: repeat Empty q) ++ X :: repeat Empty (15 - idx) ++ [Empty]).
+      { unfold ncs. replace idx with (length nh + S q) at 1 by (unfold q; lia).
+        rewrite set_nth_app_r. cbn [set_nth]. rewrite set_nth_app_l by (rewrite repeat_length; unfold q; lia).
+        rewrite set_nth_repeat by (unfold q; lia).
+        rewrite <- !app_assoc. cbn [app]. replace (15 - j - q - 1) with (15 - idx) by (unfold q; lia). reflexivity. }
+      eexists _, _. split; [reflexivity|]. split.
+      * intros fT HfT. destruct fT as [|fT]; [lia|]. cbn [app]. rewrite insert_full_eq.
+        assert (Hni : nth_error ncs idx = Some Empty).
+        { unfold ncs. replace idx with (length nh + S q) by (unfold q; lia).
+          rewrite nth_error_app2 by lia. replace (length nh + S q - length nh) with (S q) by lia. cbn [nth_error].
+          rewrite nth_error_app1 by (rewrite repeat_length; unfold q; lia). apply nth_error_repeat. unfold q; lia. }
+        rewrite Hni. destruct fT as [|fT]; [cbn in HfT; lia|].
+        assert (Ei : insert (S fT) d Empty (kt ++ [16]) (Value v) = Ok (true, X)).
+        { unfold X. destruct (kt ++ [16]) eqn:E; [destruct kt; discriminate|reflexivity]. }
+        rewrite Ei. cbn [rbind fst snd]. rewrite Encs. reflexivity.
+      * rewrite Ecs.
+        assert (Ehp' : length (hp ++ Hd :: repeat StNil q) = idx).
+        { rewrite app_length. cbn [length]. rewrite repeat_length. fold j. unfold q. lia. }
+        replace (15 - idx) with (15 - length (hp ++ Hd :: repeat StNil q)) by (rewrite Ehp'; reflexivity).
+        apply SBranch; [|constructor|lia].
+        apply Forall2_app; auto. constructor.
+        -- right. split; auto. unfold Hd. f_equal. apply st_hash_srel; auto.
+        -- clear. induction q; cbn; constructor; auto. left; auto.
+    + (* descend into the live child *)
+      rewrite (hash_prev_hp hp _ (hashed_forall _ _ Hhp) j (le_n _)).
+      unfold j at 1. rewrite nth_app_mid.
+      destruct (IH live nlive kt Hlive Hcl Hkt) as (s2 & n2 & E1 & E2 & Hr2).
+      { intros r w Hh. assert (Hx : lt_pf (j :: r) (j :: kt ++ [16])) by (apply (Ho _ w); econstructor; eauto).
+        apply lt_pf_cons_inv in Hx as [[X _]|[_ Hx]]; [lia|auto]. }
+      { cbn in Hf. lia. }
+      exists (StBranch (hp ++ s2 :: repeat StNil (15 - j))),
+             (Full (nh ++ n2 :: repeat Empty (15 - j) ++ [Empty]) newflag).
+      split.
+      { pose proof (srel_live _ _ Hlive) as Hlv.
+        destruct live; try tauto; rewrite E1; unfold j; rewrite set_nth_mid; reflexivity. }
+      split.
+      * intros fT HfT. destruct fT as [|fT]; [lia|]. cbn [app]. rewrite insert_full_eq, Hnj.
+        rewrite E2 by (cbn in HfT; lia). cbn [rbind fst snd]. unfold ncs. rewrite <- Hnh, set_nth_mid. reflexivity.
+      * apply SBranch; auto.
+Qed.
+
+
+(* ------------------------------------------------------------------ a whole sorted run *)
+
+Definition hexkv (kv : bytes * bytes) : key * bytes := (keybytes_to_hex (fst kv), snd kv).
+
+Fixpoint sorted_pf (l : list (bytes * bytes)) : Prop :=
+  match l with
+  | [] => True
+  | a :: t => Forall (fun b => lt_pf (keybytes_to_hex (fst a)) (keybytes_to_hex (fst b))) t /\ sorted_pf t
+  end.
+
+Definition state_rel (s : stn) (n : node) : Prop := (s = StEmpty /\ n = Empty) \/ srel s n.
+
+Lemma hex_split kb : is_bytes kb -> exists k, keybytes_to_hex kb = k ++ [16] /\ nibs k.
+Proof. intros Hb. apply wfk_split. apply keybytes_to_hex_wfk; auto. Qed.
+
+Lemma lt_pf_irrefl a : ~ lt_pf a a.
+Proof.
+  intros (pre & x & y & ra & rb & E1 & E2 & Hxy & _). rewrite E1 in E2. apply app_inv_head in E2.
+  inversion E2. lia.
+Qed.
+
+Lemma st_update_srel s n kb v :
+  state_rel s n -> canon n -> is_bytes kb -> v <> [] ->
+  (forall k' w, has n k' w -> lt_pf k' (keybytes_to_hex kb)) ->
+  exists s' n', st_update H s kb v = Some s' /\ trie_update d n kb v = Ok n' /\
+                srel s' n' /\ canon n' /\ ins_spec n n' (keybytes_to_hex kb) v.
+Proof.
+  intros Hst Hc Hb Hv Hord. destruct (hex_split kb Hb) as (k & Ek & Hk).
+  unfold st_update, trie_update. destruct v as [|v0 vt]; [congruence|].
+  set (v := v0 :: vt) in *. rewrite Ek, removelast_last.
+  destruct (insert_spec d v Hv (fuel_of (k ++ [16])) n (k ++ [16]) Hc (wfk_snoc _ Hk) (fuel_of_gt _))
+    as (b & n1 & Ei & Hc1 & _ & _ & _ & Hs1).
+  destruct Hst as [[-> ->]|Hs].
+  - exists (StLeaf k v), (Short (k ++ [16]) (Value v) newflag).
+    assert (Ei2 : insert (fuel_of (k ++ [16])) d Empty (k ++ [16]) (Value v) =
+                  Ok (true, Short (k ++ [16]) (Value v) newflag)).
+    { unfold fuel_of. destruct (k ++ [16]) eqn:E; [destruct k; discriminate|].
+      replace (2 * length (n :: l) + 4) with (S (2 * length (n :: l) + 3)) by lia. reflexivity. }
+    rewrite Ei2 in Ei. inversion Ei; subst b n1.
+    split; [replace (length k + 2) with (S (length k + 1)) by lia; reflexivity|].
+    split; [rewrite Ei2; reflexivity|]. split; [constructor|]. split; auto.
+  - destruct (st_insert_srel v Hv (length k + 2) s n k Hs Hc Hk) as (s' & n' & E1 & E2 & Hr).
+    { intros k' w Hh. rewrite <- Ek. eapply Hord; eauto. }
+    { lia. }
+    rewrite (E2 _ (fuel_of_gt _)) in Ei. inversion Ei; subst b n1.
+    exists s', n'. split; auto. split; [rewrite (E2 _ (fuel_of_gt _)); reflexivity|]. auto.
+Qed.
+
+Lemma st_updates_srel : forall rest done s n,
+  state_rel s n -> canon n ->
+  (forall k' w, has n k' w <-> In (k', w) (map hexkv done)) ->
+  Forall (fun kv => is_bytes (fst kv) /\ snd kv <> []) rest ->
+  (forall a b, In a done -> In b rest -> lt_pf (keybytes_to_hex (fst a)) (keybytes_to_hex (fst b))) ->
+  sorted_pf rest ->
+  exists s' n', st_updates H s rest = Some s' /\ trie_updates d n rest = Ok n' /\
+                state_rel s' n' /\ canon n' /\
+                (forall k' w, has n' k' w <-> In (k', w) (map hexkv (done ++ rest))).
+Proof.
+  induction rest as [|[kb v] rest IH]; intros done s n Hst Hc Hh Hok Hlt Hs.
+  - exists s, n. rewrite app_nil_r. cbn. auto.
+  - inversion Hok as [|? ? [Hb Hv] Hok']; subst. cbn [fst snd] in *. destruct Hs as [Hs1 Hs2].
+    destruct (st_update_srel s n kb v Hst Hc Hb Hv) as (s1 & n1 & E1 & E2 & Hr1 & Hc1 & Hi1).
+    { intros k' w Hk'. apply Hh in Hk'. apply in_map_iff in Hk' as ([kb' v'] & E & Hin). inversion E; subst.
+      apply (Hlt (kb', v') (kb, v)); [auto|left; auto]. }
+    destruct (IH (done ++ [(kb, v)]) s1 n1 (or_intror Hr1) Hc1) as (s' & n' & F1 & F2 & F3 & F4 & F5); auto.
+    + intros k' w. rewrite (Hi1 k' w), map_app, in_app_iff, Hh. cbn [map hexkv fst snd In]. split.
+      * intros [[-> ->]|[_ Hin]]; auto.
+      * intros [Hin|[E|[]]]; [|inversion E; subst; auto].
+        right. split; auto. intros ->. apply in_map_iff in Hin as ([kb' v'] & E & Hin). inversion E; subst.
+        eapply lt_pf_irrefl. rewrite H1 at 1. apply (Hlt (kb', v') (kb, v)); [auto|left; auto].
+    + intros a b Ha Hb'. apply in_app_iff in Ha as [Ha|[<-|[]]].
+      * apply Hlt; [auto|right; auto].
+      * rewrite Forall_forall in Hs1. apply Hs1; auto.
+    + exists s', n'. cbn [st_updates trie_updates]. rewrite E1, E2. cbn [rbind]. split; auto. split; auto.
+      split; auto. split; auto. intros k' w. rewrite F5, <- app_assoc. reflexivity.
+Qed.
+
+End Ins.
